@@ -23,6 +23,11 @@ def lookup_and_evaluate(arg):
     vel = (rng.uniform(-8, 8), rng.uniform(-8, 8))       # m per 100 ms step
     nobj = rng.randint(1, 4)
     objs = [dict(id=j, x=e0[0] + rng.uniform(-30, 30), y=e0[1] + rng.uniform(-30, 30), yaw=rng.uniform(-3, 3), label=rng.choice(TARGETS)) for j in range(1, nobj + 1)]
+    first_seen = {o["id"]: 0 for o in objs}
+    if k % 3 == 0:      # nothing annotated at the first ground-truth frame
+        first_seen = {o["id"]: 1 for o in objs}
+    elif k % 3 == 1:    # one object appears later
+        first_seen[objs[0]["id"]] = rng.choice([1, 2])
     times = [1_000_000 + i * 100_000 for i in range(3)]
     queries = [times[0], times[0] + 40_000, times[1], times[1] + 50_000, times[2] - 30_000, times[2]]
     out = {}
@@ -51,7 +56,7 @@ def lookup_and_evaluate(arg):
         frames = []
         for i, t in enumerate(times):
             ego = ego_at(t)
-            frames.append(frame_gt([render(o, ego, 0.0, "g%d" % o["id"], 1.0, t) for o in objs], time=t, name=str(i), ego=ego))
+            frames.append(frame_gt([render(o, ego, 0.0, "g%d" % o["id"], 1.0, t) for o in objs if first_seen[o["id"]] <= i], time=t, name=str(i), ego=ego))
         mgr.ground_truth_frames = frames
         res = []
         for t in queries:
